@@ -223,7 +223,11 @@ class Run:
                     w.connect(src_ent, dst_ent, *pairs, **kw)
         for s in scen["sims"]:
             if s.get("init_event") is not None:
-                w.set_initial_event(s["sid"], s["init_event"])
+                # a list: several calls for one simulator, in this order ("an initial step",
+                # singular: the last call is the one that counts)
+                ie = s["init_event"]
+                for t in (ie if isinstance(ie, list) else [ie]):
+                    w.set_initial_event(s["sid"], t)
         return w
 
     def _on_quiescent(self, loop, live, timers):
